@@ -585,6 +585,36 @@ func runC04(p *core.Program, r *core.Report) {
 		c.ob("PT3", p.FuncName(fDelete), "root replaced by the deletion's result", c.fpos(fDelete), okRoot, "Delete must store root.delete(b, key) back into b.root")
 	}
 
+	// ---------------- Delete's verdict is the descent's verdict
+	if ndelete != nil {
+		fn := fDelete
+		for _, b := range fn.Blocks {
+			rt, ok := b.Instrs[len(b.Instrs)-1].(*ssa.Return)
+			if !ok || b == fn.Recover || len(rt.Results) != 1 {
+				continue
+			}
+			okE := true
+			n := 0
+			for _, o := range valueOrigins(path.ReturnValues(rt)[0]) {
+				if path.IsNil(o) {
+					// the zero value of the declared err before the call; allowed only as an origin next to the call's result
+					continue
+				}
+				n++
+				ex, isEx := o.(*ssa.Extract)
+				if !isEx || ex.Index != 1 {
+					okE = false
+					continue
+				}
+				call, isCall := ex.Tuple.(*ssa.Call)
+				if !isCall || path.StaticCallee(call) != ndelete {
+					okE = false
+				}
+			}
+			c.ob("PV1", p.FuncName(fn), "reports what the descent found", p.InstrPos(rt), okE && n >= 1, "Delete returns an error that does not come from root.delete(b, key): presence is decided by something other than the tree (e.g. the size counter)")
+		}
+	}
+
 	// ---------------- who writes values and links
 	for _, f := range allDeep {
 		for _, in := range path.Instrs(f) {
